@@ -4,6 +4,7 @@ import (
 	"encoding/json"
 	"fmt"
 	"math/rand"
+	"strings"
 
 	"verif/internal/ref"
 	"verif/internal/run"
@@ -106,7 +107,9 @@ func (c *c03) Generate(cx *Ctx, chunk int) []*Item {
 	var metas []*DiffMeta
 	add := func(clauses []*term.Term, shape string) {
 		prog := append(append([]*term.Term{}, base...), clauses...)
-		metas = append(metas, &DiffMeta{Program: prog, Query: query, NVars: 4, Max: 80, Family: shape})
+		// every seventh program is added by asserta/1 (last clause first), every eleventh by assertz/1
+		k := len(metas)
+		metas = append(metas, &DiffMeta{Program: prog, Query: query, NVars: 4, Max: 80, Family: shape, AssertA: k%7 == 3, Assert: k%7 != 3 && k%11 == 5})
 	}
 	// all bodies of length <= 3 over the alphabet
 	var bodies [][]*term.Term
@@ -288,6 +291,38 @@ dgen(N) :- dgen(M), N is M + 1.
 once_log(X) :- once((dm(X), w(o(X)))).
 ite_log(X) :- ( dm(X), w(c(X)) -> true ; X = none ).
 `)
+		// nondeterministic BUILT-INS to the left of a cut: their remaining solutions are choice points like any other
+		// (cut reached on the first, an interior and the last solution; inside once/1, if-then-else and negation too)
+		for _, gen := range []string{
+			"between(1, 5, X)", "member(X, [1, 2, 3, 4, 5])", "append(_, [X|_], [1, 2, 3, 4, 5])", "select(X, [1, 2, 3, 4, 5], _)", "nth1(_, [1, 2, 3, 4, 5], X)",
+			"nth0(X0, [a, b, c, d, e], _), X is X0 + 1",
+			"length(L0, X0), X is X0 + 1", "repeat, gcount(X)", "clause(gfact(X), true)", "retract(gdyn(X))",
+			"setof(Y0, member(Y0, [3, 1, 2]), L0), member(X, L0)", "catch(member(X, [1, 2, 3, 4, 5]), _, true)", "findall(Y0, member(Y0, [1, 2, 3, 4, 5]), L0), member(X, L0)",
+		} {
+			if strings.Contains(gen, "arg(X") {
+				continue // arg/3 with an unbound N raises in this engine (as ISO says)
+			}
+			for _, m := range []int{0, 2, 4} {
+				for _, form := range []string{
+					"dm(A), gcut(%d, X), dn(B)", "dm(A), once((GEN, X > %d)), dn(B)", "dm(A), (GEN, X > %d -> true ; X = none), dn(B)", "dm(A), \\+ \\+ (GEN, X > %d), dn(B)",
+				} {
+					prog := append([]*term.Term{}, late...)
+					prog = append(prog, term.MustProgram(fmt.Sprintf(`
+:- dynamic(gdyn/1).
+:- dynamic(gctr/1).
+gfact(1). gfact(2). gfact(3). gfact(4). gfact(5).
+gdyn(1). gdyn(2). gdyn(3). gdyn(4). gdyn(5).
+gctr(0).
+gcount(X) :- retract(gctr(N)), X is N + 1, assertz(gctr(X)).
+gcut(M, X) :- %s, X > M, !.
+gcut(_, late).
+`, gen))...)
+					text := strings.ReplaceAll(fmt.Sprintf(form, m), "GEN", gen)
+					t, nv, qv := parseQuery(text)
+					metas = append(metas, &DiffMeta{Program: prog, Query: t, NVars: nv, QVars: qv, Max: 14, Family: "builtin-generator-then-cut"})
+				}
+			}
+		}
 		for _, q := range []string{
 			"gen_then(!, X)", "gen_then((X >= 2, !), X)", "gen_then(true, X)", "gen_then((X >= 2), X)", "dn(Y), gen_then(!, X)", "outer(!, X, Y)", "outer((X > 1, !), X, Y)",
 			"gen_mid(!, X, Y)", "gen_mid((X >= 2, !), X, Y)", "gen_first(!, X)", "two_late(true, !, X)", "two_late((X > 1), !, X)", "two_late(!, fail, X)",
